@@ -9,6 +9,7 @@ pub mod c05;
 pub mod c07;
 pub mod c08;
 pub mod c09;
+pub mod c19;
 pub mod c20;
 pub mod search_common;
 pub mod c10;
@@ -40,6 +41,7 @@ pub fn run(id: &str, tier: Tier) -> i32 {
         "C16" => c16::run(tier),
         "C17" => c17::run(tier),
         "C18" => c18::run(tier),
+        "C19" => c19::run(tier),
         "C20" => c20::run(tier),
         _ => {
             println!("MACHINERY-ERROR unknown property {}", id);
@@ -67,6 +69,7 @@ pub fn replay(id: &str, case: &Value) -> i32 {
         "C16" => c16::replay(case),
         "C17" => c17::replay(case),
         "C18" => c18::replay(case),
+        "C19" => c19::replay(case),
         "C20" => c20::replay(case),
         _ => {
             println!("MACHINERY-ERROR unknown property {}", id);
